@@ -27,8 +27,10 @@ def _work(job):
     return out['r']
 
 
-def run_jobs(jobs, workers=16, order_seed=0):
-    """jobs: list of (module, function, kwargs). Returns list of result dicts (same order)."""
+def run_jobs(jobs, workers=16, order_seed=0, on_result=None):
+    """jobs: list of (module, function, kwargs). Returns list of result dicts (same order).
+    on_result(job, result) is called in the parent as results arrive; when it returns True the remaining jobs are cancelled
+    (their entries stay None) - used to stop a run as soon as a violation has been replayed."""
     if not jobs:
         return []
     idx = list(range(len(jobs)))
@@ -39,9 +41,25 @@ def run_jobs(jobs, workers=16, order_seed=0):
     if workers <= 1 or len(jobs) == 1:
         for i in idx:
             res[i] = _work(jobs[i])
+            if on_result and on_result(jobs[i], res[i]):
+                break
         return res
-    with ProcessPoolExecutor(max_workers=min(workers, len(jobs))) as ex:
+    ex = ProcessPoolExecutor(max_workers=min(workers, len(jobs)))
+    stopped = False
+    try:
         futs = {ex.submit(_work, jobs[i]): i for i in idx}
         for f in as_completed(futs):
             res[futs[f]] = f.result()
+            if on_result and on_result(jobs[futs[f]], res[futs[f]]):
+                stopped = True
+                break
+    finally:
+        if stopped:
+            procs = list(getattr(ex, '_processes', {}).values())
+            ex.shutdown(wait=False, cancel_futures=True)
+            for p in procs:
+                try: p.kill()
+                except Exception: pass
+        else:
+            ex.shutdown(wait=True)
     return res
